@@ -187,8 +187,9 @@ pub fn proc_case(u: &mut Unstructured, forced: Option<p::Focus>) -> Result<(p::F
     let nops = u.int_in_range(0usize..=24)?;
     let mut ops = vec![];
     let dur = |u: &mut Unstructured| -> Result<u64> {
-        Ok(match u.int_in_range(0u8..=5)? {
+        Ok(match u.int_in_range(0u8..=6)? {
             0 => 0,
+            6 => u64::MAX,
             1 => u.int_in_range(1u64..=999_000)?,
             2 | 3 => u.int_in_range(1_000_000u64..=999_000_000)?,
             4 => u.int_in_range(1_000_000_000u64..=30_000_000_000)?,
